@@ -390,6 +390,8 @@ func impl() {
 				res = implAlias(p)
 			case "rdscript":
 				res = implRdscript(p)
+			case "rdretry":
+				res = implRdretry(p)
 			case "seqwr":
 				res = implSeqwr(p)
 			case "wrfail":
